@@ -264,7 +264,7 @@ theorem live11 : ∀ l ∈ F11.liveLeaves, l ≠ (zero : T) := by
 /-- `Verify` accepts and reports all three trees, lowest first -/
 example : verify (BitVec.ofNat 64 F11.numLeaves) F11.roots L11 [9#64, 3#64, 10#64, 18#64]
     [T.leaf 2, .leaf 8, .leaf 0, .leaf 7] = .ok [2, 1, 0] :=
-  C02.honest_proof_verifies_CR cr (by decide) live11 (by decide) canon11
+  C02.honest_proof_verifies_CR cr.toNZ (by decide) live11 (by decide) canon11
 
 /-- `Stump.del` ends with the roots of the specification and returns the specified `NewDel` -/
 theorem del11 : Stump.delSt ⟨F11.roots, 11#64⟩ L11 [9#64, 3#64, 10#64, 18#64]
